@@ -8,7 +8,7 @@
    sorted and is the reference's result (e = nil), or the reference refuses too
    and l' = l. *)
 From Coq Require Import ZArith List Bool.
-From GoCoap Require Import Gen.OptConsts Opt.Model Opt.Spec Opt.Proofs Opt.ProofsPath Opt.ProofsValues.
+From GoCoap Require Import Gen.OptConsts Opt.Model Opt.Spec Opt.Proofs Opt.ProofsPath Opt.ProofsValues Opt.ProofsAlias.
 Import ListNotations.
 Open Scope Z_scope.
 
@@ -178,6 +178,62 @@ Theorem C15_values_exact : forall steps, Forall (fun x => 0 <= snd x) steps -> F
 Proof. exact vrun_reference. Qed.
 Print Assumptions C15_values_exact.
 
+(* ---- ResetOptionsTo with an input that aliases the message's own value
+   storage (Opt/ProofsAlias.v). [areset_loop]: every copy(buf, o.Value) of the
+   loop reads its source from the memory as the earlier copies left it.
+   [hdrs_ok m w hs]: every input header is inside its array and outside the
+   writable part of the window w (another array, or entirely before w). ---- *)
+
+(* under that hypothesis the aliased call IS the by-value call with the bytes
+   the views denoted before the call: same memory, headers, window, result *)
+Theorem C15_reset_alias : forall s hs slack b, vwf s -> 0 <= slack -> hdrs_ok (v_mem s) (v_win s) hs ->
+  vreset_alias s hs slack = vstep s (OResetTo (proj (v_mem s) hs) b) slack.
+Proof. exact vreset_alias_eq. Qed.
+Print Assumptions C15_reset_alias.
+
+(* every selection (filtered / re-ordered / repeating copy) of the message's
+   own Options() satisfies the hypothesis, whatever history built the message *)
+Theorem C15_own_options_ok : forall s sel, vwf s -> hdrs_ok (v_mem s) (v_win s) (pick (v_opts s) sel).
+Proof. exact own_hdrs_ok. Qed.
+Print Assumptions C15_own_options_ok.
+
+(* msg.ResetOptionsTo(selection of msg.Options()) reads back as the list-level
+   builder step (the one tied to the Go code by the correspondence check) with
+   the selected (number, bytes) pairs of the list before the call ... *)
+Theorem C15_reset_own_project : forall s sel slack b, vwf s -> 0 <= slack ->
+  let r := vreset_alias s (pick (v_opts s) sel) slack in
+  mstep (mproj s) (OResetTo (pick (m_opts (mproj s)) sel) b) = (mproj (fst r), snd r) /\ vwf (fst r) /\
+  keeps (v_mem s) (v_win s) (v_mem (fst r)) /\ protects (v_mem s) (v_win s) (v_win (fst r)).
+Proof. exact reset_own_sim. Qed.
+Print Assumptions C15_reset_own_project.
+
+(* ... it is performed, and the resulting list is the reference's: ascending by
+   number, input order kept among equal numbers, bytes exactly those the
+   selected options had before the call *)
+Theorem C15_reset_own : forall s sel slack, vwf s -> 0 <= slack ->
+  let r := vreset_alias s (pick (v_opts s) sel) slack in
+  snd r = ENone /\
+  proj (v_mem (fst r)) (v_opts (fst r)) = fold_ref (pick (proj (v_mem s) (v_opts s)) sel) [] /\
+  vwf (fst r).
+Proof. exact reset_own_reference. Qed.
+Print Assumptions C15_reset_own.
+
+(* msg.ResetOptionsTo(msg.Options()) leaves the list as it was *)
+Theorem C15_reset_own_identity : forall s slack, vwf s -> 0 <= slack ->
+  let r := vreset_alias s (v_opts s) slack in
+  snd r = ENone /\ proj (v_mem (fst r)) (v_opts (fst r)) = proj (v_mem s) (v_opts s) /\ vwf (fst r).
+Proof. exact reset_own_identity. Qed.
+Print Assumptions C15_reset_own_identity.
+
+(* the input may share the receiver's option ARRAY as well (Options()[a : a+n]
+   passed back; [sreset_loop]: opts := options[:0], the range loop reads slot
+   a+i of the array as the first i iterations left it, Add writes slots 0..i):
+   the list built is the one the by-value loop builds from those slots *)
+Theorem C15_reset_shared_array : forall arr a n, 0 <= a -> a + Z.of_nat n <= len arr ->
+  sreset_loop n 0 a arr = fold_add (take (drop arr a) (Z.of_nat n)) [].
+Proof. exact shared_array_reset. Qed.
+Print Assumptions C15_reset_shared_array.
+
 (* a refused ResetOptionsTo leaves the receiver unchanged; Clone of a sorted
    list is the list *)
 Theorem C15_reset_to : forall l b ins, reset_options_to l b ins =
@@ -254,4 +310,20 @@ Example C15_instance_values :
   mproj s = mrun (map fst steps) m_new /\
   m_opts (mproj s) = [(4, [8]); (11, [97]); (11, [98]); (12, big)] /\
   len (v_mem s) = 4.
+Proof. vm_compute. repeat split. Qed.
+
+(* non-vacuity of the aliasing theorems: values stored out of option order
+   (12 before 6), the window advanced past them -- the own list is a legal
+   input and comes back unchanged; with the window rewound to the start of the
+   array (headers no longer outside it) the same loop corrupts option 12 *)
+Example C15_instance_alias :
+  let s := fst (vstep (fst (vstep vnew (OSetU32 12 50 0) 0)) (OSetU32 6 5 0) 0) in
+  let r := vreset_alias s (v_opts s) 0 in
+  let s0 := {| v_mem := v_mem s; v_opts := v_opts s; v_win := v_orig s; v_orig := v_orig s |} in
+  let r0 := vreset_alias s0 (v_opts s0) 0 in
+  v_opts s = [(6, [0; 1; 1]); (12, [0; 0; 1])] /\
+  proj (v_mem s) (v_opts s) = [(6, [5]); (12, [50])] /\
+  proj (v_mem (fst r)) (v_opts (fst r)) = [(6, [5]); (12, [50])] /\
+  v_opts (fst r) = [(6, [0; 2; 1]); (12, [0; 3; 1])] /\
+  proj (v_mem (fst r0)) (v_opts (fst r0)) = [(6, [5]); (12, [5])].
 Proof. vm_compute. repeat split. Qed.
